@@ -13,7 +13,7 @@ RULE = ('Base documents: fixtures, generated valid documents, documents with 1-4
         'acknowledgement are identical for the original and every re-encoding. non-trivial = distinct (document, encoding) pairs where the document has >=1 error.')
 ASSUMPTIONS = ['message strings and HTML are not compared (they legitimately contain delimiters)', 'source line numbers are compared as segment ordinals, which re-encoding preserves',
                'acknowledgement envelope lines (ISA/GS/ST/SE/GE/IEA, which carry timestamps and generated control numbers) are excluded']
-REQUIRED_COUNTERS = ['bases:longer-than-one-read-buffer', 'bases', 'bases:with-errors', 'bases:valid', 'encodings', 'encodings:control-char-delimiter', 'encodings:eol:', 'encodings:eol:\\r\\n', 'encodings:eol:\\n']
+REQUIRED_COUNTERS = ['bases:with-trailing-separator-or-leading-blank', 'bases:longer-than-one-read-buffer', 'bases', 'bases:with-errors', 'bases:valid', 'encodings', 'encodings:control-char-delimiter', 'encodings:eol:', 'encodings:eol:\\r\\n', 'encodings:eol:\\n']
 MIN_CASES = {'quick': 900, 'thorough': 30000}
 WATCHDOG_S = {'quick': 1200, 'thorough': 7200}
 
@@ -65,7 +65,7 @@ def judge(ctx, base, charset, case, sigs, k_enc):
     for j in range(k_enc):
         rng = ctx.sub_rng('enc', repr(case.get('k')), j)
         try:
-            st, et, sb, eol = reencode.pick_terms(rng, base, charset)
+            st, et, sb, eol = reencode.pick_terms(rng, base, charset, ctrl_ele=(j == 1))      # one encoding per base with FS/GS/RS/US/tab between elements
             if not ctx.quick and j == 0:
                 used = reencode.data_chars(base)
                 if '\n' not in used and '\r' not in used:
@@ -142,8 +142,13 @@ def run(ctx):
             kinds += names
             if 'truncate' in ' '.join(names) or 'blank-segment' in names or 'empty-segment' in names:
                 continue        # re-encoding goes through the reference tokenizer, which normalises these away
-        if any(ord(c) < 32 and c not in '\r\n' for c in text) or any(ord(c) > 126 for c in text):
-            pass
+        if rng.random() < 0.2:
+            # a segment ending in element separators / beginning with blanks: reader-level findings that must not depend on which characters delimit
+            terms0, segs0 = mutate.parse(text)
+            (mutate.m_trailing_separator if rng.random() < 0.6 else mutate.m_leading_blank)(rng, terms0, segs0)
+            text = mutate.render(terms0, segs0, '\n')
+            kinds.append('trailing-separator-or-leading-blank')
+            ctx.count('bases:with-trailing-separator-or-leading-blank')
         case = {'map': e['file'], 'faults': kinds, 'charset': cs, 'k': ['c12', ctx.shard, k], 'text': text if len(text) < 150000 else None}
         n += judge(ctx, text, cs, case, sigs, k_enc)
         ctx.sample({'map': e['file'], 'faults': kinds, 'text_head': text[:300]})
